@@ -13,6 +13,8 @@ def expected_url(scheme, server, host, root, path, query):
         netloc = host
     else:
         h, p = server
+        if ":" in h and not h.startswith("["):
+            h = "[%s]" % h          # an IPv6 address is written in brackets inside a URL (RFC 3986 3.2.2)
         netloc = h if p == DEFAULT[scheme] else "%s:%d" % (h, p)
     return "%s://%s%s%s%s" % (scheme, netloc, root, path, ("?" + query) if query else "")
 
@@ -35,6 +37,14 @@ def check_construct(scheme, server, host, root, path, query):
         v.append("environ: %r, expected %r" % (uw, want))
     if ua != want:
         v.append("scope: %r, expected %r" % (ua, want))
+    if not v and host is None:
+        # the URL must parse back into the components it was built from
+        sp = urlsplit(ua)
+        try:
+            if sp.hostname != server[0].strip("[]").lower() or (sp.port or DEFAULT[scheme]) != server[1]:
+                v.append("built from server %r but parses as host %r port %r" % (server, sp.hostname, sp.port))
+        except ValueError as e:
+            v.append("built URL %r does not parse: %r" % (ua, e))
     return v
 
 
@@ -84,6 +94,16 @@ def check_query_helpers(url):
     rem = parse_qsl(URL(str(u.remove_query_params("a"))).query, keep_blank_values=True)
     if rem != [p for p in base if p[0] != "a"]:
         v.append("remove_query_params: %r" % rem)
+    # parameters that were not named keep their exact bytes (also percent-escapes that are not UTF-8)
+    from urllib.parse import unquote_to_bytes
+    def raw(q):
+        return [(unquote_to_bytes(k.replace("+", " ")), unquote_to_bytes(val.replace("+", " ")))
+                for k, _, val in (part.partition("=") for part in q.split("&") if part)]
+    for new_u, gone in ((u.include_query_params(zz="1"), b"zz"), (u.remove_query_params("zz"), b"zz")):
+        before = [p for p in raw(u.query) if p[0] != gone]
+        after = [p for p in raw(URL(str(new_u)).query) if p[0] != gone]
+        if before != after:
+            v.append("query helper changed other parameters: %r -> %r" % (before[:4], after[:4]))
     return v
 
 
@@ -118,8 +138,6 @@ def bounded(tier, seed):
         for server in (("h.example", 80), ("h.example", 443), ("h.example", 8080), ("127.0.0.1", 8000), ("::1", 80)):
             for host in (None, "pub.example", "pub.example:8443", "[::1]:9000"):
                 for root, path, query in (("", "/", ""), ("/app", "/x/y", "a=1&b=2"), ("", "/é", "q=%C3%A9"), ("/r", "", "x")):
-                    if server[0] == "::1" and host is None:
-                        continue    # a bare IPv6 server name without brackets is not a valid authority: server's business
                     evals += 1
                     v = check_construct(scheme, server, host, root, path, query)
                     distinct.add((scheme, server, host, root, path, query))
@@ -132,6 +150,7 @@ def bounded(tier, seed):
             for port in ("", ":8080"):
                 for userinfo in ("", "u@", "u:s3cr3t@", "u:pw%40x@", "u:p@ss@"):
                     urls.append("%s://%s%s%s/p/q?a=1&a=2&b=#frag" % (scheme, userinfo, host, port))
+    urls += ["http://h/p?tok=%FF%FE&name=caf%E9&b=1", "http://h/p?a=%2B+x&b=%26", "http://h/p?k=%C3%A9&a=1"]
     comps = {"scheme": "https", "path": "/new", "query": "n=1", "fragment": "f2", "username": "bob", "password": "s3cr:et", "hostname": "other",
              "port": 81}
     keys = list(comps)
@@ -150,7 +169,16 @@ def bounded(tier, seed):
                 failures.append({"inputs": {"kind": "replace", "url": url, "changes": ch}, "violated": v})
             elif len(samples) < 3 and len(sub) == 2 and "@" in url:
                 samples.append({"url": url, "changes": ch})
-        for ch in ({"hostname": "[::2]"}, {"username": None}, {"port": None}, {"port": 0}, {"password": ""}):
+        # user names / passwords that contain URL delimiters (known finding: they are spliced in unquoted)
+        if url.startswith("http://u:s3cr3t@h"):
+            for ch in ({"password": "p/ss"}, {"password": "p?ss"}, {"password": "p#ss"}, {"username": "a:b"}, {"username": "a/b", "password": "x"}):
+                evals += 1
+                v = check_replace(url, ch)
+                if v and sum(1 for f in failures if f["inputs"].get("region") == "userinfo-with-url-delimiters") < 3:
+                    failures.append({"inputs": {"kind": "replace", "url": url, "changes": ch, "region": "userinfo-with-url-delimiters"},
+                                     "violated": v[:3]})
+        for ch in ({"hostname": "[::2]"}, {"hostname": "::2"}, {"hostname": "fe80::1"}, {"username": None}, {"port": None}, {"port": 0},
+                   {"password": ""}):
             evals += 1
             v = check_replace(url, ch)
             if v and len(failures) < 10:
